@@ -673,7 +673,8 @@ fn serialise_body<'tcx>(tcx: TyCtxt<'tcx>, def: LocalDefId, body: &Body<'tcx>, p
     let did = def.to_def_id();
     let kind = tcx.def_kind(did);
     // only executable code items: fns, methods, closures (incl. coroutines). Skip consts/statics/anon consts.
-    if !matches!(kind, DefKind::Fn | DefKind::AssocFn | DefKind::Closure | DefKind::SyntheticCoroutineBody | DefKind::Static { .. }) {
+    // named constants too: their initialiser says what `NO_TTL` or `SHARD_MASK` stand for
+    if !matches!(kind, DefKind::Fn | DefKind::AssocFn | DefKind::Closure | DefKind::SyntheticCoroutineBody | DefKind::Static { .. } | DefKind::Const { .. } | DefKind::AssocConst { .. }) {
         return None;
     }
     let env = ty::TypingEnv::post_analysis(tcx, did);
@@ -722,7 +723,7 @@ impl rustc_driver::Callbacks for Cb {
         // make sure every body has been built (analysis normally did it already)
         for def in tcx.hir_body_owners() {
             let kind = tcx.def_kind(def);
-            if matches!(kind, DefKind::Fn | DefKind::AssocFn | DefKind::Closure | DefKind::Static { .. }) {
+            if matches!(kind, DefKind::Fn | DefKind::AssocFn | DefKind::Closure | DefKind::Static { .. } | DefKind::Const { .. } | DefKind::AssocConst { .. }) {
                 let _ = tcx.mir_built(def);
             }
         }
